@@ -124,13 +124,19 @@ def opJudge : Op := fun j => do
               ("conserved", jBool (decide (Conserved s s'))),
               ("sig", jObj [("illegal_ok", jObj [("why", jStr why)]), ("conserved", jObj [])])])
 
-/-- C10 certificates on a reset state -/
+/-- C10 certificates on a reset state; cfg additionally has num_agents, request_queue_size, shelf_rows,
+shelf_columns, column_height (the generator's arguments) -/
 def opInstance : Op := fun j => do
   let cfg ← getCfg (← field j "cfg")
   let s ← getState (← field j "state")
   checkShape cfg s
   let rows := gRows s.shelfGrid
   let cols := gCols s.shelfGrid
+  let c ← field j "cfg"
+  let na ← fNat c "num_agents"
+  let q ← fNat c "request_queue_size"
+  let l : Layout := ⟨← fNat c "shelf_rows", ← fNat c "shelf_columns", ← fNat c "column_height"⟩
+  let d : SpawnDraw := ⟨s.agents.map (fun ag => ag.x * (cols : Int) + ag.y), s.agents.map (·.dir), s.queue⟩
   pure (jObj [("spawn_ok", jBool (decide (SpawnOK cfg s))),
               ("agents_distinct_inside", jBool (distinctPos (fun a : Agent => (a.x, a.y)) s.agents &&
                   s.agents.all (fun ag => decide (inGrid rows cols ag.x ag.y)))),
@@ -139,7 +145,15 @@ def opInstance : Op := fun j => do
               ("queue_distinct_requested", jBool (decide s.queue.Nodup &&
                   (List.range s.shelves.length).all (fun (k : Nat) =>
                     decide ((s.shelves.getD k default).requested = 1) == s.queue.contains (k : Int)))),
-              ("reset_obs_ok", jBool (decide (resetObs cfg s = observe cfg s)))])
+              ("reset_obs_ok", jBool (decide (resetObs cfg s = observe cfg s))),
+              -- the generator transliteration: the sampled values read off the reset state must lie in the
+              -- support of `spawn_random_entities` (agent cells pairwise different: sampling without replacement),
+              -- `generate cfg draw` must rebuild the implementation's state exactly, and the floor layout must be
+              -- the one `_make_warehouse` computes from the generator's arguments
+              ("draw_in_support", jBool (validSpawn na q cfg.highways d)),
+              ("generator_matches", jBool (decide (generate cfg d = s))),
+              ("layout_matches", jBool (decide (cfg.highways = l.highways) && decide (cfg.goals = l.goals) &&
+                  decide (rows = l.rows) && decide (cols = l.cols)))])
 
 /-- C01: {cfg} → {leaf path: {"lo": rat|null, "hi": rat|null}} = `obsBounds cfg` (the intervals of
 `Props.C01.robot_warehouse_step_obs_in_bounds`) -/
